@@ -5,7 +5,7 @@ from typing import List
 from glom import glom, delete, Delete, Path, T, S, Val, GlomError, PathAccessError
 from glom.mutation import PathDeleteError
 
-from harness.mutlib import (SEGS, NFAM, FAMILIES, family, plain, ids, ref_delete, spell, pick_segs, Obj, Boom, MyDict, MyList)
+from harness.mutlib import (SEGS, NFAM, FAMILIES, family, plain, ids, ref_delete, spell, pick_segs, Obj, Boom, MyDict, MyList, ragged, ragged_path)
 from vkit.common import start, reach, fail, known_open, concretize, OUT, run
 from vkit.ob import Ob
 import vkit.stubs  # noqa: F401
@@ -17,7 +17,8 @@ META = {
                    '(later items shift), PathDeleteError for a missing final element, PathAccessError for a missing parent, '
                    'silence under ignore_missing, target unchanged in every failing case.',
     'bounds': {
-        'quick': {'path length': '1-3 over 5 segment texts', 'list length': '<= 3', 'indices and leaves': 'unbounded symbolic ints'},
+        'quick': {'path length': '1-3 over 5 segment texts', 'list length': '<= 3', 'indices and leaves': 'unbounded symbolic ints',
+                  'wildcards': '1-3 per path over ragged containers with 0-2 children per level (3^3 size patterns), key / index / attribute final segment, three addressing styles'},
         'thorough': {'path length': '1-3 over 8 segment texts', 'list length': '<= 4'},
     },
     'stubs': ['S3 glom_debug=True', 'S4 state reset'],
@@ -117,6 +118,74 @@ def delete_wild(shape: int, n: int, ignore: bool, a: int, b: int) -> bool:
     if n > 1:
         reach('wild_many')
     return all('v' not in k for k in kids) or fail(why='not every match deleted', kids=kids)
+
+
+def delete_wild_sizes(nw: int, final: int, style: int, s0: int, s1: int, s2: int, ignore: bool, a: int) -> bool:
+    """1-3 wildcards over ragged containers (empty ones included): the element is removed at EVERY match, nothing else
+    changes, and when there is no match at all the delete is a no-op, not an error"""
+    start()
+    nw, final, style = concretize(nw, 1, 3), concretize(final, 0, 2), concretize(style, 0, 2)
+    s0, s1, s2 = concretize(s0, 0, 2), concretize(s1, 0, 2), concretize(s2, 0, 2)
+    if OUT in (nw, final, style, s0, s1, s2):
+        return True
+    t, leaves = ragged(nw, [s0, s1, s2], final, a)
+    before = [copy.deepcopy(l) for l in leaves]
+    got = run(lambda: glom(t, Delete(ragged_path(nw, final, style), ignore_missing=ignore), glom_debug=True))
+    reach('wild_sizes')
+    if not leaves:
+        reach('wild_no_match')
+    if len(leaves) > 2:
+        reach('wild_many_leaves')
+    if got.kind != 'ok' or got.value is not t:
+        return fail(why='wildcard delete must succeed and return the target', got=got, n=len(leaves))
+    for lf, b in zip(leaves, before):
+        if final == 0:
+            ok = 'v' not in lf and lf.get('keep') == b['keep'] and len(lf) == 1
+        elif final == 1:
+            ok = lf == b[1:]
+        else:
+            ok = not hasattr(lf, 'v') and lf.keep == b.keep
+        if not ok:
+            return fail(why='not deleted at every match (or something else changed)', leaf=lf, before=b, n=len(leaves))
+    return True
+
+
+class _Box:
+    """a container type nothing is registered for by default: only a Glommer that registers it can look inside"""
+    __slots__ = ('inner',)
+
+    def __init__(self, inner):
+        self.inner = inner
+
+
+def delete_ctx(kind: int, xs: List[int], k: int, ignore: bool) -> bool:
+    """the parent of the element is looked up in the CURRENT evaluation context: scope variables used as keys / indices in
+    the path (bound by the caller's scope= or by an earlier S(...) step) and handlers registered on the Glommer in use"""
+    from glom import Glommer
+    start()
+    kind = concretize(kind, 0, 3)
+    if kind is OUT or not (0 <= k < len(xs)):
+        return True
+    rows = [{'x': v, 'keep': i} for i, v in enumerate(xs)]
+    t = {'rows': rows}
+    if kind == 0:
+        got = run(lambda: glom(t, Delete(T['rows'][S.k]['x'], ignore_missing=ignore), scope={'k': k}, glom_debug=True))
+    elif kind == 1:
+        got = run(lambda: glom(t, (S(k=Val(k)), Delete(T['rows'][S['k']]['x'], ignore_missing=ignore)), glom_debug=True))
+    elif kind == 2:
+        got = run(lambda: glom(t, (S(name=Val('rows')), Delete(Path(T[S['name']], k, 'x'), ignore_missing=ignore)), glom_debug=True))
+    else:
+        g = Glommer()
+        g.register(_Box, get=lambda box, name: box.inner[name])
+        t = _Box({'rows': rows})
+        got = run(lambda: g.glom(t, Delete(Path('rows', k, 'x'), ignore_missing=ignore), glom_debug=True))
+    reach('delete_ctx')
+    if got.kind != 'ok':
+        return fail(why='the element exists: the delete must succeed', got=got, kind=kind)
+    for i, r in enumerate(rows):
+        if ('x' in r) != (i != k) or r['keep'] != i:
+            return fail(why='exactly the addressed element is removed', rows=rows, k=k, kind=kind)
+    return True
 
 
 def _mk_parent(kind, v):
@@ -243,6 +312,14 @@ def obligations(tier):
     for shape in range(5):
         obs.append(Ob(delete_wild, fixed={'shape': shape}, pre='1 <= n <= 3', name='delete_wild_%d' % shape))
     obs.append(Ob(delete_fn, pre='0 <= which <= 4 and len(xs) <= 2', name='delete_fn'))
+    obs.append(Ob(delete_ctx, pre='0 <= kind <= 3 and len(xs) <= 3', name='delete_ctx'))
+    obs.append(Ob(delete_ctx, pre='0 <= kind <= 3 and len(xs) <= 3', twin='delete_ctx', name='delete_ctx'))
+    wp = '0 <= style <= 2 and 0 <= s0 <= 2 and 0 <= s1 <= 2 and 0 <= s2 <= 2'
+    for nw in (1, 2, 3):
+        for final in range(3):
+            obs.append(Ob(delete_wild_sizes, fixed={'nw': nw, 'final': final}, pre=wp, name='delete_wild_sizes_w%d_f%d' % (nw, final), timeout=150))
+    obs.append(Ob(delete_wild_sizes, fixed={'nw': 2, 'final': 0}, pre=wp, twin='wild_no_match', name='delete_wild_sizes_w2_f0'))
+    obs.append(Ob(delete_wild_sizes, fixed={'nw': 3, 'final': 1}, pre=wp, twin='wild_many_leaves', name='delete_wild_sizes_w3_f1'))
     for k1 in range(4):
         obs.append(Ob(delete_reuse, fixed={'k1': k1}, pre='0 <= k2 <= 3 and 0 <= seg <= 1 and 0 <= style <= 1', name='delete_reuse_%d' % k1))
         obs.append(Ob(delete_wild_mixed, fixed={'k0': k1}, pre='0 <= k1 <= 3 and 0 <= k2 <= 3 and 0 <= seg <= 1', name='delete_wild_mixed_%d' % k1))
